@@ -14,16 +14,17 @@ import (
 )
 
 type HarnessSpec struct {
-	Pkg      string         `json:"pkg"`
-	Func     string         `json:"func"`
-	Tier     string         `json:"tier,omitempty"` // "" = both tiers, "quick" / "thorough" = only that tier
-	Reach    []string       `json:"reach,omitempty"`
-	Vars     map[string]int `json:"vars,omitempty"`          // package-level int variables of the harness package (bounds)
-	VarsT    map[string]int `json:"vars_thorough,omitempty"` // overrides in the thorough tier
-	Unwind   int            `json:"unwind,omitempty"`
-	HavocLen int            `json:"havoc_len,omitempty"`
-	What     string         `json:"what,omitempty"`
-	Precise  string         `json:"precise_solver,omitempty"` // overrides the property's precise solver for this harness
+	Pkg       string         `json:"pkg"`
+	Func      string         `json:"func"`
+	Tier      string         `json:"tier,omitempty"` // "" = both tiers, "quick" / "thorough" = only that tier
+	Reach     []string       `json:"reach,omitempty"`
+	Vars      map[string]int `json:"vars,omitempty"`          // package-level int variables of the harness package (bounds)
+	VarsT     map[string]int `json:"vars_thorough,omitempty"` // overrides in the thorough tier
+	Unwind    int            `json:"unwind,omitempty"`
+	HavocLen  int            `json:"havoc_len,omitempty"`
+	HavocLenT int            `json:"havoc_len_thorough,omitempty"` // length bound of havocked slices in the thorough tier
+	What      string         `json:"what,omitempty"`
+	Precise   string         `json:"precise_solver,omitempty"` // overrides the property's precise solver for this harness
 }
 
 type PropSpec struct {
@@ -166,6 +167,9 @@ func cmdCheck(args []string) int {
 		havocSliceLen = 2
 		if h.HavocLen > 0 {
 			havocSliceLen = h.HavocLen
+		}
+		if *tier == "thorough" && h.HavocLenT > 0 {
+			havocSliceLen = h.HavocLenT
 		}
 		pendingVars = vars
 		hr, err := runHarness(l, h.Pkg, h.Func, cfg, h.Reach)
